@@ -429,3 +429,11 @@ Definition user_truth_hook (h : heap) (o : id) : bool :=
   | Some g => is_user_function h g
   | None => user_hook h T s_len
   end.
+
+(* DirectObjectAccess.py__getitem__all_values (reached from CompiledValue.py__getitem__ when the
+   index is not a simple literal hit): isinstance(obj, dict) -> obj.values(); isinstance(obj,
+   (list, tuple)) -> `for v in obj`.  isinstance, not exact type: subclasses are iterated. *)
+Definition isinstance_kinds (h : heap) (o : id) (ks : list ckind) : bool :=
+  existsb (fun e => kind_in (kind_of h e) ks) (mro_of h (type_of h o)).
+Definition getitem_all_values (h : heap) (o : id) : list access :=
+  if isinstance_kinds h o [KDict; KList; KTuple] then [AIterate o] else [].
